@@ -134,7 +134,10 @@ func zzC05Boot(t testing.TB, dir string) (sys *zzC05Sys) {
 			}
 		}
 
-		_, _ = io.WriteString(w, sys.listBody.Load().(string))
+		// Every location also serves one rule of its own, so that the lists
+		// can be told apart in DNS answers.
+		own := strings.TrimSuffix(strings.Trim(r.URL.Path, "/"), ".txt")
+		_, _ = io.WriteString(w, sys.listBody.Load().(string)+"||only-"+own+".example^\n")
 	}))
 
 	sys.localList = filepath.Join(dir, "local_list.txt")
@@ -1182,6 +1185,91 @@ func TestZZVerifC05Gated(t *testing.T) {
 
 		res.Replies = append(res.Replies, fmt.Sprintf("%s:blocked=%v", probe, blocked))
 		w.put(res)
+		if len(res.Bad) > 0 && strings.HasPrefix(res.Bad[0], "STALL") {
+			return
+		}
+	}
+
+	// The same worker parked in a download while the list it is downloading is
+	// disabled through set_url, then enabled again: afterwards the list must
+	// be in force with the content of its location (its file, its rule count
+	// and the engine agree).  set_url may finish while the worker is parked or
+	// wait for it: both are fine.
+	for i := 0; i < rounds; i++ {
+		res := &gatedRes{Kind: "gated", Family: "FilterLists", Round: 1500 + i}
+		u0 := sys.listSrv.URL + "/extra0.txt"
+		zzC05API(post, "/control/filtering/add_url", m{"name": "extra0", "url": u0, "whitelist": false})
+		setURL := func(enabled bool) {
+			zzC05API(post, "/control/filtering/set_url", m{"url": u0, "whitelist": false,
+				"data": m{"name": "extra0", "url": u0, "enabled": enabled}})
+		}
+		setURL(true)
+		sys.listBody.Store(fmt.Sprintf("||listed.example^\n||ads.example^\n||setparked%d.example^\n", i))
+
+		gate := make(chan struct{})
+		l0 := sys.listCalls.Load()
+		sys.listGate.Store(&gate)
+		wdone := make(chan string, 1)
+		go func() {
+			wdone <- runTimed("refresh worker", func() { globalContext.filters.ZZVerifRefreshStep() })
+		}()
+
+		deadline := time.Now().Add(3 * time.Second)
+		for sys.listCalls.Load() == l0 && time.Now().Before(deadline) {
+			time.Sleep(2 * time.Millisecond)
+		}
+
+		res.Parked = sys.listCalls.Load() - l0
+		odone := make(chan string, 1)
+		go func() {
+			odone <- runTimed("set_url (disable) while the refresh worker is parked in a download", func() { setURL(false) })
+		}()
+
+		opBad, opReturned := "", false
+		select {
+		case opBad = <-odone:
+			opReturned = true
+		case <-time.After(1500 * time.Millisecond):
+			// Serialised behind the running refresh.
+		}
+
+		sys.listGate.Store(nil)
+		close(gate)
+		if bad := <-wdone; bad != "" {
+			res.Bad = append(res.Bad, bad)
+		}
+
+		if !opReturned {
+			opBad = <-odone
+		}
+
+		if opBad != "" {
+			res.Bad = append(res.Bad, opBad)
+		}
+
+		setURL(true)
+
+		probe := "only-extra0.example"
+		zzC05API(post, "/control/protection", m{"enabled": true})
+		zzC05API(post, "/control/access/set", m{"allowed_clients": []string{}, "disallowed_clients": []string{}, "blocked_hosts": []string{}})
+		zzC05API(post, "/control/filtering/config", m{"enabled": true, "interval": 1})
+		blocked := false
+		for try := 0; try < 100 && !blocked; try++ {
+			c := &dns.Client{Net: "udp", Timeout: 2 * time.Second}
+			r, _, err := c.Exchange((&dns.Msg{}).SetQuestion(dns.Fqdn(probe), dns.TypeA), sys.dnsAddr)
+			blocked = err == nil && len(r.Answer) == 1 && strings.Contains(r.Answer[0].String(), "0.0.0.0")
+			if !blocked {
+				time.Sleep(50 * time.Millisecond)
+			}
+		}
+
+		if !blocked && len(res.Bad) == 0 {
+			res.Bad = append(res.Bad, "list state corrupted: after disable-while-refreshing and enable, the enabled list extra0 is not in force ("+probe+" is not blocked after 5s)")
+		}
+
+		res.Replies = append(res.Replies, fmt.Sprintf("%s:blocked=%v:opReturnedWhileParked=%v", probe, blocked, opReturned))
+		w.put(res)
+		zzC05API(post, "/control/filtering/remove_url", m{"url": u0, "whitelist": false})
 		if len(res.Bad) > 0 && strings.HasPrefix(res.Bad[0], "STALL") {
 			return
 		}
